@@ -343,7 +343,8 @@ class HistoryRunner:
                 continue
             if outcome != "ok":
                 self.oracle.append(("member_cannot_unlock:flags-not-restored", {"node": mid, "call": kind, "outcome": outcome},
-                                    {"call": kind, "effect": "unlocked-on-raise", "stream": "history"}))
+                                    {"call": kind, "effect": "unlocked-on-raise", "stream": "history",
+                                     "pattern": "unlock-error-path-raises-non-runtime" if kind == "unlock" and outcome.startswith("other:") else None}))
             elif kind != "unlock":
                 self.oracle.append(("locked_frozen:unlocked-by-call", {"node": mid, "call": kind},
                                     {"call": kind, "effect": "unlocked", "stream": "history"}))
@@ -365,7 +366,8 @@ class HistoryRunner:
                                          "parent_locked_by": "memmap_" if via_mm else "lock_",
                                          "hollow_lazy": bool(hollow(W, target_obj)),
                                          "pattern": ("member-unlock:parent-locked-by-memmap_" if via_mm and outcome == "ok" else
-                                                     "member-unlock:hollow-lazy-stack" if hollow(W, target_obj) and outcome == "ok" else None)}))
+                                                     "member-unlock:hollow-lazy-stack" if hollow(W, target_obj) and outcome == "ok" else
+                                                     "unlock-error-path-raises-non-runtime" if outcome.startswith("other:") else None)}))
             # O5 shared_node / gc_parent: a node of the subtree with a live lock_-locked parent OUTSIDE the subtree forbids the unlock
             sub = W.reachable(target_obj)
             outside = [(m, b) for m, b in before.items() if b["raw"] is True and b["oid"] not in sub and not b["mm"]
@@ -527,6 +529,10 @@ class HistoryRunner:
             return False
         if op != "drop":
             self.oracle_after(desc, before, outcome, target)       # the oracle never looks at the model: evaluated first
+        if op in ("lock", "unlock") and outcome.startswith("other:"):
+            # D60: the lock error path formats repr(self), which raises for some heterogeneous lazy stacks; the model has no repr
+            self.unsupported = "lock error path raised a non-RuntimeError (repr of a heterogeneous lazy stack)"
+            return False
         if not self.model_step(opsx, outcome, new_obj):
             return False
         if new_obj is not None:
@@ -728,6 +734,9 @@ class HistoryRunner:
         d = {"op": which, "n": n, "outcome": out, "with": "enter", "escape": escape}
         self.trace.append(d)
         self.oracle_after(d, before, out, h)
+        if out.startswith("other:"):
+            self.unsupported = "lock error path raised a non-RuntimeError (repr of a heterogeneous lazy stack)"
+            return False
         if not self.model_step(sx([Sym(which), n]), out):
             return False
         if cm is None:
@@ -746,8 +755,8 @@ class HistoryRunner:
                 before_exit = snapshot_locked(W)
         except ValueError:
             pass
-        except RuntimeError:
-            exit_exc = "runtime"       # raised by the inverse call inside __exit__ (body calls are caught one by one)
+        except Exception as e:  # noqa: BLE001 -- raised by the inverse call inside __exit__ (body calls are caught one by one)
+            exit_exc = exc_enum(e)
         if not ok:
             return False
         if not escape and post != pre:
@@ -757,6 +766,9 @@ class HistoryRunner:
             self.trace.append(d)
             if before_exit is not None:
                 self.oracle_after(d, before_exit, out, h)
+            if out.startswith("other:"):
+                self.unsupported = "lock error path raised a non-RuntimeError (repr of a heterogeneous lazy stack)"
+                return False
             if not self.model_step(sx([Sym(inv), n]), out):
                 return False
         return True
@@ -799,9 +811,18 @@ def _worker_hist(args):
     sess = Session()
     out = []
     for sd in seeds:
-        H = run_history(t, sess, sd, nops, quick)
-        out.append({"seed": sd, "trace": H.trace, "mismatch": H.mismatch, "oracle": H.oracle, "stats": H.stats, "flags": H.flags,
-                    "unsupported": H.unsupported, "model_ops": list(H.W.ops)})
+        try:
+            H = run_history(t, sess, sd, nops, quick)
+            out.append({"seed": sd, "trace": H.trace, "mismatch": H.mismatch, "oracle": H.oracle, "stats": H.stats, "flags": H.flags,
+                        "unsupported": H.unsupported, "model_ops": list(H.W.ops)})
+        except Exception:  # noqa: BLE001 -- a bug of the harness is reported as a broken check, never as a crash of the pool
+            import traceback
+            out.append({"seed": sd, "harness_error": traceback.format_exc()[-1200:]})
+            try:
+                sess.close()
+            except Exception:  # noqa: BLE001
+                pass
+            sess = Session()
         H = None
         gc.collect()
     sess.close()
@@ -825,11 +846,12 @@ def _worker_reflect(args):
 
 
 def _pool(fn, jobs, procs):
+    """fork pool; a worker that dies is reported (BrokenProcessPool) instead of hanging the check"""
     import multiprocessing as mp
+    from concurrent.futures import ProcessPoolExecutor
     ctx = mp.get_context("fork")
-    with ctx.Pool(min(procs, max(1, len(jobs)))) as p:
-        res = p.map(fn, jobs, chunksize=1)
-    return res
+    with ProcessPoolExecutor(max_workers=min(procs, max(1, len(jobs))), mp_context=ctx) as ex:
+        return list(ex.map(fn, jobs))
 
 
 # ====================================================================================================== streams
@@ -994,6 +1016,9 @@ def stream_histories(R, nhist, nops):
     flags_tot = {}
     for chunk in res:
         for h in chunk:
+            if "harness_error" in h:
+                R.broken.append(f"history harness error (seed {h['seed']}): {h['harness_error']}")
+                continue
             for k, v in h["stats"].items():
                 R.count("hist:" + k, v)
             for k, v in h["flags"].items():
